@@ -1362,6 +1362,9 @@ func (f *frame) noteAlloc(ref *Term) {
 		f.e.Defs.noteFunc(p, []*Sort{SRef}, SBool)
 		f.c.assume(Not(App(p, SBool, ref)))
 	}
+	if f.pure || f.bound || f.e.isSpecFunc(f.fn) {
+		return // allocations inside specifications (quantifier closures, clause functions) are not objects of the program
+	}
 	for _, a := range f.c.allocs {
 		if a.String() != ref.String() {
 			f.c.assume(Not(Eq(ref, a))) // distinct allocation sites yield distinct objects
